@@ -8,3 +8,7 @@ import Lace.Props.C04
 #print axioms Lace.C04.dup_label_rejected
 #print axioms Lace.C04.undefined_label_rejected
 #print axioms Lace.C04.second_orig_rejected
+#print axioms Lace.C01.parse_tokens_ok_image
+#print axioms Lace.C04.accept_render_image
+#print axioms Lace.C04.accept_iff_wf_render
+#print axioms Lace.C04.reject_render
